@@ -101,7 +101,8 @@ func c07Value(structName, typeName string) universe.Recipe {
 }
 
 var c07Channels = []string{"registry", "json-top", "json-item", "json-list", "gob-top", "gob-item", "gob-list",
-	"json-top-escaped", "json-item-escaped", "json-list-escaped", "json-top-after-unknown", "json-item-after-unknown", "json-item-between-unknown"}
+	"json-top-escaped", "json-item-escaped", "json-list-escaped", "json-top-after-unknown", "json-item-after-unknown", "json-item-between-unknown",
+	"json-deep-10", "json-deep-70", "gob-deep-70", "json-top-page-like-id"}
 
 func c07SetHooks() func() {
 	oldT, oldU, oldE := ap.ItemTyperFunc, ap.JSONItemUnmarshal, ap.IsNotEmpty
@@ -240,6 +241,80 @@ func c07Through(channel string, name string, x ap.Item) (ap.Item, error) {
 			return m, nil
 		}
 		return nil, nil
+	case "json-deep-10", "json-deep-70", "gob-deep-70":
+		// the value at the bottom of a chain of embedded objects (alternately through attachment and inReplyTo)
+		depth := 10
+		if channel != "json-deep-10" {
+			depth = 70
+		}
+		var inner ap.Item = x
+		for d := 0; d < depth; d++ {
+			o := &ap.Object{ID: ap.IRI(fmt.Sprintf("https://example.com/chain/%d", d)), Type: ap.NoteType}
+			if d%2 == 0 {
+				o.Attachment = inner
+			} else {
+				o.InReplyTo = inner
+			}
+			inner = o
+		}
+		var it ap.Item
+		if channel == "gob-deep-70" {
+			b, err := ap.GobEncode(inner)
+			if err != nil {
+				return nil, err
+			}
+			if it, err = ap.GobDecode(b); err != nil {
+				return nil, err
+			}
+		} else {
+			b, err := ap.MarshalJSON(inner)
+			if err != nil {
+				return nil, err
+			}
+			if it, err = ap.UnmarshalJSON(b); err != nil {
+				return nil, err
+			}
+		}
+		for d := depth - 1; d >= 0; d-- {
+			o, ok := it.(*ap.Object)
+			if !ok {
+				return nil, fmt.Errorf("level %d of the chain decoded as %T", d, it)
+			}
+			if d%2 == 0 {
+				it = o.Attachment
+			} else {
+				it = o.InReplyTo
+			}
+		}
+		return it, nil
+	case "json-top-page-like-id":
+		// the value's id is "<partOf>?page=2" and partOf names the prefix: a relation between members must not change what the
+		// type name means (x itself is given that id - and that partOf where its struct has the property - so that the caller's
+		// comparison is with what was written)
+		xv := reflect.ValueOf(x)
+		if xv.Kind() != reflect.Pointer || xv.IsNil() {
+			return nil, fmt.Errorf("not a pointer value")
+		}
+		xv.Elem().FieldByName("ID").Set(reflect.ValueOf(ap.IRI("https://example.com/outbox?page=2")))
+		hasPartOf := false
+		if f := xv.Elem().FieldByName("PartOf"); f.IsValid() {
+			f.Set(reflect.ValueOf(ap.IRI("https://example.com/outbox")))
+			hasPartOf = true
+		}
+		b, err := ap.MarshalJSON(x)
+		if err != nil {
+			return nil, err
+		}
+		if !hasPartOf {
+			node, err := jsonref.Parse(b)
+			if err != nil || node.Kind != "object" {
+				return nil, fmt.Errorf("library output does not parse as an object: %v", err)
+			}
+			node.Names = append(node.Names, "partOf")
+			node.Members = append(node.Members, &jsonref.Node{Kind: "string", Str: "https://example.com/outbox"})
+			b = jsonref.Render(node, jsonref.RenderOpts{})
+		}
+		return ap.UnmarshalJSON(b)
 	case "gob-top":
 		b, err := ap.GobEncode(x)
 		if err != nil {
@@ -268,7 +343,7 @@ func init() {
 			"On*/To* acceptance matrix per name; marker value = id, name and every family-specific property of the struct; non-trivial = a vocabulary name",
 		Assumptions: []string{"the vocabulary table in c07.go is the independent ground truth (written from the ActivityStreams vocabulary)", "reading D3 for generic and unknown names"},
 		Bound: func(string) string {
-			return "complete: ~61 names x 13 channels x 2 hook configurations + membership and helper matrices (same in both tiers)"
+			return "complete: ~61 names x 17 channels x 2 hook configurations + membership and helper matrices (same in both tiers)"
 		},
 		Shards: 8,
 		Run:    c07Run,
